@@ -56,7 +56,7 @@ REQUESTS = [
     ("defer_if", 'query ($v: Boolean!) { me { ... @defer(if: $v, label: "a") { name } ... @defer(if: false) { id } } }', {}, [["u1.name"]], [{"v": True}, {"v": False}]),
     ("defer_list", '{ users { id ... @defer(label: "a") { name } } }', {}, [["u1.name", "u2.name"], ["u3.name"]], None),
     ("stream_sync", '{ me { friends @stream(initialCount: 1, label: "s") { id } } }', {}, [[], ["u1.friends:gen"], ["u1.friends:items"]], None),
-    ("stream_agen", '{ me { friends @stream(label: "s") { id name } } }', {}, [["u1.friends:agen", "u2.name"], ["u1.friends:aiter"], ["u1.friends:agen!1"], ["u1.friends:agen!1", "u2.name"], ["u1.friends:agen!2", "u3.name"]], None),
+    ("stream_agen", '{ me { friends @stream(label: "s") { id name } } }', {}, [["u1.friends:agen", "u2.name"], ["u1.friends:aiter"], ["u1.friends:aiterable"], ["u1.friends:agen!1"], ["u1.friends:agen!1", "u2.name"], ["u1.friends:agen!2", "u3.name"]], None),
     ("defer_in_stream", '{ me { friends @stream(initialCount: 1, label: "s") { id ... @defer(label: "d") { name } } } }', {},
      [["u1.friends:agen", "u2.name"], ["u2.name", "u3.name"]], None),
     ("scalars_top", '{ ... @defer(label: "t") { other { name } } me { tags @stream(initialCount: 2, label: "s") } }', {}, [["u2.name"], ["u1.tags:agen"]], None),
@@ -70,6 +70,11 @@ REQUESTS = [
      [["u1.name", "u2.name"], ["root.me", "u2.friends:agen"]], None),
     ("nested_stream_item_fails", '{ me { nnFriends @stream(label: "s") { nn friends @stream(initialCount: 1, label: "n") { id } } } }', {},
      [["u2.nn:err", "u2.friends:agen"], ["u2.nn:err", "u2.friends:aiter"], ["u3.nn:err"]], None),
+    # a field of a fragment repeated in its grand-child, the fragment in between empty / fully deduplicated
+    ("skip_generation", '{ me { id ... @defer(label: "A") { name ... @defer(label: "B") { ... @defer(label: "C") { name } } } } }', {"B": "A", "C": "B"},
+     [[], ["u1.name"]], None),
+    ("skip_generation_dedup", '{ me { id ... @defer(label: "A") { name nn ... @defer(label: "B") { name ... @defer(label: "C") { nn tags } } } } }', {"B": "A", "C": "B"},
+     [[], ["u1.nn", "u1.name"], ["u1.nn", "u1.tags:items"]], None),
     ("deep", '{ me { best { ... @defer(label: "a") { name friends @stream(label: "s") { id ... @defer(label: "c") { nn } } } } } }', {"s": "a"},
      [["u2.name", "u3.nn"], ["u2.friends:agen"]], None),
 ]
